@@ -252,7 +252,7 @@ def h_cube_slice(n_wav, n_ap, nm):
 def configs(tier, seed):
     q = tier == 'quick'
     cfgs = []
-    for n_wav in ((2, 3, 4) if q else (2, 3, 4, 5, 6)):
+    for n_wav in ((2, 3, 4) if q else (2, 3, 4, 5, 6, 7, 9)):
         cfgs.append(Config('mono n_wav=%d default window nm=2 n_ap=%d' % (n_wav, 1 + n_wav % 2), h_mono(n_wav, 1 + n_wav % 2, 2, 'none', (1, 0)), 3000))
     cfgs.append(Config('mono n_wav=3 window [min,max] nm=1 n_ap=1', h_mono(3, 1, 1, 'both', (0,)), 3000))
     cfgs.append(Config('mono n_wav=3 window min only nm=2 n_ap=2', h_mono(3, 2, 2, 'min', (0, 1)), 3000))
